@@ -1,6 +1,71 @@
-/- Line-protocol driver for engine `pool` — not built yet (stub). -/
+/- Line-protocol driver for the worker-pool model (engine `pool`, C16).
+   Case:   `seq <size> | op ; op ; …`   op = ok | err | panic | burst:<k>,<k>,…
+   Answer: one word per job in submission order, then `| live=<n>`. -/
+import AxVerif.Model.Pool
+import AxVerif.Model.Bytes
+namespace AxVerif.Pool
+open AxVerif
+
+def maxSize : Nat := 16
+def maxJobs : Nat := 400
+
+def parseKind : String → Option Kind
+  | "ok" => some .ok
+  | "err" => some .err
+  | "panic" => some .panic
+  | _ => none
+
+def parseKinds : List String → Option (List Kind)
+  | [] => some []
+  | w :: ws => match parseKind w, parseKinds ws with
+    | some k, some r => some (k :: r)
+    | _, _ => none
+
+def parseOp (w : String) : Option Op :=
+  let w := w.trimAscii.toString
+  if w.startsWith "burst:" then
+    match parseKinds ((w.drop 6).toString.splitOn ",") with
+    | some ks => some (.burst ks)
+    | none => none
+  else (parseKind w).map .call
+
+def parseOps : List String → Option (List Op)
+  | [] => some []
+  | w :: ws => match parseOp w, parseOps ws with
+    | some o, some r => some (o :: r)
+    | _, _ => none
+
+def Op.jobs : Op → Nat
+  | .call _ => 1
+  | .burst ks => ks.length
+
+def showOutcome : Option Resp → String
+  | some .ok => "answered-ok"
+  | some .err => "answered-err"
+  | some .panicAsError => "answered-panic-as-error"
+  | none => "lost"
+
+def parseDefects (flags : List String) : Defects :=
+  { panicKillsWorker := flags.contains "panicKillsWorker" }
+
+def stepLine (D : Defects) (line : String) : String :=
+  match line.splitOn "|" with
+  | [head, body] =>
+    match words head with
+    | ["seq", n] =>
+      match n.toNat?, parseOps (body.splitOn ";") with
+      | some n, some ops =>
+        if n = 0 ∨ n > maxSize ∨ (ops.map Op.jobs).sum > maxJobs then "bad-op"
+        else
+          let s := exec D n ops
+          s!"{joinWith " " ((outcomes s).map showOutcome)} | live={s.live}"
+      | _, _ => "bad-op"
+    | _ => "bad-op"
+  | _ => "bad-op"
+
+end AxVerif.Pool
+
 namespace AxVerif.Drivers
-
-def pool (_flags : List String) (_line : String) : String := "unimplemented"
-
+def pool (flags : List String) (line : String) : String :=
+  AxVerif.Pool.stepLine (AxVerif.Pool.parseDefects flags) line
 end AxVerif.Drivers
